@@ -1,9 +1,210 @@
-//! C11 (b): programs mixing memory writes with nested calls — filled in with the E2 program layer.
+//! C11 (b): programs mixing memory writes with nested calls — E2 with the step monitor recording
+//! memory contents around every call.
+//!
+//! Oracle per executed instruction: memory length is a multiple of 32 and never shrinks inside a frame;
+//! a fresh frame starts with length 0; an expansion is charged exactly the difference of the quadratic
+//! formula (for the pure memory instructions the whole charge is checked); MLOAD of memory that was
+//! never written reads zero; after a call / create resolves — with or without a child frame — the
+//! caller's memory is byte-for-byte what it was when the instruction handed over, except inside the
+//! return window, and its length is unchanged.
+use crate::asm::{op, Asm};
+use crate::exec::*;
 use crate::fw::*;
-use serde_json::Value;
-pub fn replay(_case: &Value) -> Vec<Violation> {
-    vec![]
+use crate::macros::*;
+use crate::monitor::{MEv, Mon};
+use crate::world::*;
+use rayon::prelude::*;
+use revm::primitives::{address, Address, SpecId, U256};
+use serde_json::{json, Value};
+
+pub const MEMCHILD: Address = address!("b0000000000000000000000000000000000000d7");
+/// writes its own memory, calls a code-less account and the identity precompile with return windows,
+/// then returns MSIZE and a word of its memory
+fn memchild_code() -> Vec<u8> {
+    let a = Asm::new().push_u(0xaabb).push_u(0).op(op::MSTORE);
+    let a = a.call(op::CALL, U256::from(50_000), EMPTY, Some(U256::ZERO), 0, 0, 0, 0).op(op::POP);
+    let a = a.call(op::CALL, U256::from(50_000), ID, Some(U256::ZERO), 0, 32, 32, 32).op(op::POP);
+    // return (MSIZE, MLOAD(0))
+    a.op(op::MSIZE).push_u(64).op(op::MSTORE).push_u(0).op(op::MLOAD).push_u(96).op(op::MSTORE).push_u(64).push_u(64).op(op::RETURN).build()
 }
-pub fn run_b(_ctx: &Ctx) -> Acc {
-    Acc::new()
+fn alphabet() -> Vec<Mac> {
+    let w = |to, in_len, out_off, out_len| Mac::CallWin { to, in_len, out_off, out_len };
+    vec![
+        Mac::Mstore(0),
+        Mac::Mstore(480),
+        Mac::Mstore(704),
+        Mac::Mstore(1 << 14),
+        Mac::Mstore8(100),
+        Mac::Mload(0),
+        Mac::Mload(64),
+        Mac::Mload(2000),
+        Mac::Msize,
+        Mac::Mcopy(0, 32, 64),
+        Mac::Mcopy(800, 0, 32),
+        Mac::Keccak(96),
+        w(BOK, 0, 0, 32),
+        w(BOK, 0, 16, 8),
+        w(BRET64, 0, 32, 64),
+        w(BRET64, 32, 1000, 32),
+        w(EMPTY, 0, 0, 32),
+        w(EMPTY, 64, 96, 64),
+        w(ID, 32, 0, 32),
+        w(ID, 64, 32, 16),
+        w(MEMCHILD, 0, 0, 64),
+        w(MEMCHILD, 0, 500, 64),
+        w(BREV, 0, 0, 32),
+        w(BHALT, 0, 8, 8),
+        Mac::Create { init: Init::Code1, value: 0 },
+        Mac::Return(40),
+    ]
+}
+fn build_case(spec: SpecId, seq: &[Mac]) -> TxCase {
+    let mut w = std_world();
+    w.insert(MEMCHILD, PlainAcc::contract(&memchild_code()));
+    w.insert(A, PlainAcc::contract(&assemble(seq)).with_balance(U256::from(10)));
+    let mut c = TxCase::new(spec, w);
+    c.tx.gas_limit = 3_000_000;
+    c
+}
+fn mem_gas(words: u128) -> u128 {
+    3 * words + words * words / 512
+}
+
+pub fn check_case(case: &TxCase) -> (Vec<(String, String)>, u64, String) {
+    let mut m = Mon::new(true);
+    m.record_mem = true;
+    let (o, mon, _) = exec_monitored_cfg(case, m);
+    let mut v = vec![];
+    if o.class == Class::Fatal || o.class == Class::Invalid {
+        v.push((if o.reason.starts_with("panic") { "panic".to_string() } else { "driver-failed".to_string() }, o.reason.clone()));
+        return (v, 0, String::new());
+    }
+    let mut expansions = 0u64;
+    let mut calls_checked = 0u64;
+    // memory length of each open frame, by journal depth
+    let mut frame_len: Vec<(u64, usize)> = vec![];
+    let mut fresh_frame = true; // the transaction's first frame
+    for ev in &mon.events {
+        match ev {
+            MEv::FrameStart(_) => fresh_frame = true,
+            MEv::FrameEnd(_) | MEv::Immediate(_) => {}
+            MEv::Step(i) => {
+                let s = &mon.steps[*i];
+                if s.is_eof {
+                    continue;
+                }
+                while frame_len.last().map(|(d, _)| *d > s.depth).unwrap_or(false) {
+                    frame_len.pop();
+                }
+                if fresh_frame {
+                    fresh_frame = false;
+                    if s.mem_len_before != 0 {
+                        v.push(("frame-starts-with-memory".into(), format!("first instruction of the frame at depth {} (pc {}) sees {} bytes of memory", s.depth, s.pc, s.mem_len_before)));
+                    }
+                    frame_len.push((s.depth, 0));
+                }
+                if frame_len.last().map(|(d, _)| *d != s.depth).unwrap_or(true) {
+                    frame_len.push((s.depth, s.mem_len_before));
+                }
+                let known = frame_len.last().unwrap().1;
+                if s.mem_len_before != known {
+                    v.push(("memory-size-changed-between-instructions".into(), format!("depth {} pc {} op 0x{:02x}: memory is {} bytes, it was {} after the frame's previous instruction", s.depth, s.pc, s.op, s.mem_len_before, known)));
+                }
+                if s.mem_len_after % 32 != 0 || s.mem_len_after < s.mem_len_before {
+                    v.push(("memory-size".into(), format!("depth {} pc {} op 0x{:02x}: memory went from {} to {} bytes", s.depth, s.pc, s.op, s.mem_len_before, s.mem_len_after)));
+                }
+                frame_len.last_mut().unwrap().1 = s.mem_len_after;
+                let ok_result = matches!(format!("{:?}", s.result).as_str(), "Continue" | "Stop" | "Return" | "CallOrCreate" | "SelfDestruct");
+                if s.mem_len_after > s.mem_len_before && ok_result {
+                    expansions += 1;
+                    let delta = mem_gas(s.mem_len_after as u128 / 32) - mem_gas(s.mem_len_before as u128 / 32);
+                    let charged = (s.gas_before - s.gas_after) as u128;
+                    let fixed: Option<u128> = match s.op {
+                        0x51 | 0x52 | 0x53 => Some(3),
+                        0x5e => Some(3 + 3 * ((s.stack.get(2).map(|x| x.to::<u128>()).unwrap_or(0) + 31) / 32)),
+                        0x20 => Some(30 + 6 * ((s.stack.get(1).map(|x| x.to::<u128>()).unwrap_or(0) + 31) / 32)),
+                        0xf3 | 0xfd => Some(0),
+                        _ => None,
+                    };
+                    match fixed {
+                        Some(f) if charged != f + delta => v.push(("expansion-gas".into(), format!("depth {} pc {} op 0x{:02x}: memory {} -> {} bytes; charged {charged}, defined {} + expansion {delta}", s.depth, s.pc, s.op, s.mem_len_before, s.mem_len_after, f))),
+                        None if charged < delta => v.push(("expansion-gas".into(), format!("op 0x{:02x}: charged {charged} for an expansion that alone costs {delta}", s.op))),
+                        _ => {}
+                    }
+                }
+                // MLOAD of memory that has never been part of the frame reads zero
+                if s.op == 0x51 && ok_result {
+                    if let (Some(off), Some(top)) = (s.stack.first(), s.top_after) {
+                        if *off >= U256::from(s.mem_len_before) && !top.is_zero() {
+                            v.push(("fresh-memory-not-zero".into(), format!("depth {} pc {}: MLOAD({off}) beyond the {} bytes in use returned {top}", s.depth, s.pc, s.mem_len_before)));
+                        }
+                    }
+                }
+                if let (Some(at_call), Some(after)) = (&s.mem_at_call, &s.mem_after_return) {
+                    calls_checked += 1;
+                    let (oo, ol) = match s.op {
+                        0xf1 | 0xf2 => (s.stack.get(5), s.stack.get(6)),
+                        0xf4 | 0xfa => (s.stack.get(4), s.stack.get(5)),
+                        _ => (None, None),
+                    };
+                    let (wo, wl) = (oo.map(|x| x.saturating_to::<usize>()).unwrap_or(0), ol.map(|x| x.saturating_to::<usize>()).unwrap_or(0));
+                    if at_call.len() != after.len() {
+                        v.push(("caller-memory-size-changed".into(), format!("depth {} pc {} op 0x{:02x}: caller memory had {} bytes when the call started and {} when it resumed", s.depth, s.pc, s.op, at_call.len(), after.len())));
+                    } else if let Some(pos) = (0..after.len()).find(|p| at_call[*p] != after[*p] && !(*p >= wo && *p < wo.saturating_add(wl))) {
+                        v.push(("caller-memory-changed".into(), format!("depth {} pc {} op 0x{:02x}: byte {pos} of the caller's memory changed from {:02x} to {:02x} outside the return window [{wo}, {wo}+{wl})", s.depth, s.pc, s.op, at_call[pos], after[pos])));
+                    }
+                }
+                if v.len() > 3 {
+                    break;
+                }
+            }
+        }
+    }
+    let sig = format!("{:?}/{}/e{}c{}", o.class, o.reason, expansions.min(5), calls_checked.min(5));
+    (v, mon.step_count, sig)
+}
+
+pub fn replay(case: &Value) -> Vec<Violation> {
+    let c: TxCase = serde_json::from_value(case["case"].clone()).unwrap();
+    check_case(&c).0.into_iter().map(|(k, m)| Violation { key: k, msg: m, case: case.clone() }).collect()
+}
+pub fn run_b(ctx: &Ctx) -> Acc {
+    let depth = ctx.tier.pick(3, 4);
+    let specs = [SpecId::FRONTIER, SpecId::BYZANTIUM, SpecId::CANCUN];
+    let mut jobs = vec![];
+    for s in specs {
+        let a: Vec<Mac> = alphabet().into_iter().filter(|m| s.is_enabled_in(m.since())).collect();
+        for seq in sequences(&a, depth) {
+            jobs.push((s, seq));
+        }
+    }
+    let accs: Vec<Acc> = jobs
+        .par_chunks(64)
+        .map(|ch| {
+            let mut a = Acc::new();
+            for (s, seq) in ch {
+                if ctx.over_budget() {
+                    a.capped = true;
+                    break;
+                }
+                let case = build_case(*s, seq);
+                let (v, steps, sig) = check_case(&case);
+                a.evaluations += 1;
+                a.states += 1;
+                a.transitions += steps.max(1);
+                a.distinct(&(s, &sig));
+                a.outcome(&format!("program:{sig}"));
+                if a.samples.len() < 1 && seq.len() == depth {
+                    a.sample(|| json!({"spec": spec_name(*s), "program": format!("{seq:?}"), "result": sig}));
+                }
+                for (k, m) in v {
+                    a.violation(Violation { key: k, msg: format!("{s:?} {seq:?}: {m}"), case: json!({"program": format!("{seq:?}"), "case": case}) });
+                }
+            }
+            a
+        })
+        .collect();
+    let mut acc = merge_all(accs);
+    acc.bump("program_cases", acc.evaluations);
+    acc
 }
